@@ -52,6 +52,7 @@ func c15Program(r *rand.Rand) gast.Program {
 	for _, v := range vars {
 		body = append(body, gast.Assign{Name: v, X: c15Lit(r)})
 	}
+	body = append(body, gast.Assign{Name: "g0", X: gast.IntLit{V: []int64{0, 2, 7, 65534}[r.Intn(4)]}}, gast.Assign{Name: "g1", X: []gast.Expr{gast.IntLit{V: 5}, gast.IntLit{V: 70000}, gast.FloatLit{V: 1.5}, gast.StrLit{V: "s"}}[r.Intn(4)]})
 	body = append(body, gast.Assign{Name: "arr", X: gast.ArrayLit{Els: []gast.Expr{id("v0"), c15Lit(r)}}})
 	body = append(body, gast.Assign{Name: "hsh", X: gast.HashLit{Keys: []gast.Expr{gast.StrLit{V: "p"}}, Vals: []gast.Expr{id("v1")}}})
 	mut := func(name string) gast.Stmt {
@@ -70,7 +71,11 @@ func c15Program(r *rand.Rand) gast.Program {
 	var gen func(depth int) []gast.Stmt
 	gen = func(depth int) []gast.Stmt {
 		var out []gast.Stmt
-		switch r.Intn(16) {
+		switch r.Intn(17) {
+		case 15:
+			// a global the main program only initialises and reads: every change to it happens
+			// inside a function
+			out = append(out, gast.Assign{Name: pickV(), X: gast.Call{Fn: "touchG", Args: []gast.Expr{gast.IntLit{V: int64(r.Intn(3))}}}}, gast.Assign{Name: "arr", X: gast.ArrayLit{Els: []gast.Expr{id("g0"), id("g1")}}})
 		case 14:
 			// negative literals (and positive ones) in places the compiler emits more than once:
 			// the block of a case that lists several values, the subject of a switch with
@@ -154,7 +159,7 @@ func c15Program(r *rand.Rand) gast.Program {
 	// literal evaluated again
 	lit := c15Lit(r)
 	body = append(body, gast.Assign{Name: "again1", X: lit}, gast.IncDec{Name: "again1", Op: "++"}, gast.Assign{Name: "again2", X: lit})
-	body = append(body, gast.Return{X: gast.ArrayLit{Els: []gast.Expr{id("v0"), id("v1"), id("v2"), id("v3"), id("arr"), id("hsh"), id("again1"), id("again2"), id("FI"), id("FF"), id("FS"), id("FB"), id("FBig")}}})
+	body = append(body, gast.Return{X: gast.ArrayLit{Els: []gast.Expr{id("v0"), id("v1"), id("v2"), id("v3"), id("arr"), id("hsh"), id("again1"), id("again2"), id("g0"), id("g1"), gast.Call{Fn: "touchG", Args: []gast.Expr{gast.IntLit{V: 1}}}, id("g0"), id("FI"), id("FF"), id("FS"), id("FB"), id("FBig")}}})
 	// functions working on local copies of a parameter, a global, a literal and an array element
 	viaLocal := gast.FuncDef{Name: "viaLocal", Params: []string{"p"}, Body: []gast.Stmt{
 		gast.Local{Name: "c"}, gast.Assign{Name: "c", X: id("p")}, mut("c"),
@@ -175,7 +180,8 @@ func c15Program(r *rand.Rand) gast.Program {
 	bumpV3 := gast.FuncDef{Name: "bumpV3", Body: []gast.Stmt{gast.IncDec{Name: "v3", Op: "++"}, gast.OpAssign{Name: "v3", Op: "+", X: gast.IntLit{V: 2}}, gast.Return{X: gast.IntLit{V: 1}}}}
 	shadow := gast.FuncDef{Name: "shadow", Params: []string{"v0"}, Body: []gast.Stmt{mut("v0"), gast.Return{X: id("v0")}}}
 	peek := gast.FuncDef{Name: "peek", Body: []gast.Stmt{gast.Return{X: gast.ArrayLit{Els: []gast.Expr{id("v0"), id("v1")}}}}}
-	return gast.Program{Stmts: append([]gast.Stmt{bump, quiet, viaLocal, relay, bumpV3, shadow, peek}, body...)}
+	touchG := gast.FuncDef{Name: "touchG", Params: []string{"p"}, Body: []gast.Stmt{gast.IncDec{Name: "g0", Op: "++"}, gast.OpAssign{Name: "g0", Op: "+", X: id("p")}, gast.If{C: gast.Infix{Op: ">", L: id("p"), R: gast.IntLit{V: 1}}, Then: []gast.Stmt{gast.Assign{Name: "g1", X: id("p")}}}, gast.Return{X: id("g0")}}}
+	return gast.Program{Stmts: append([]gast.Stmt{bump, quiet, viaLocal, relay, bumpV3, shadow, peek, touchG}, body...)}
 }
 
 func c15(c *ev.Ctx) {
